@@ -99,6 +99,13 @@ def run(ctx: Ctx):
     A11 = _u11.AV(ctx)
     A11.returned(w)
     wts = [val for fn_, node_, val in A11.call_log if val[0] == "mcall" and val[2] == "write_text" and val[3]]
+    SECTION_METHODS = ("print_comments", "print_states", "print_parameters", "print_assignments")
+    if wts and not _av11.has_unk(wts[-1][3][0]) and not [c for c in _av11.find_all(wts[-1][3][0], "mcall") if c[2] in SECTION_METHODS]:
+        # the text is assembled by helpers (a function of save.py, a method of the printer): expand everything except the
+        # four section methods themselves
+        A11 = _av11.AV(sm, inline=lambda callee: callee.name not in SECTION_METHODS, cha=True)
+        A11.returned(w)
+        wts = [val for fn_, node_, val in A11.call_log if val[0] == "mcall" and val[2] == "write_text" and val[3]]
     if not wts or _av11.has_unk(wts[-1][3][0]):
         ctx.undecided("R11.b", w.key("sections"), "what write_ODE_to_ode_file writes is not understood", w.where())
     else:
@@ -123,10 +130,11 @@ def check_apply_all(ctx: Ctx, rule: str):
 
     from . import util
 
-    be = ctx.sm.func("expressions.py", "build_expression.expr2symbols")
-    v = util.value_of(ctx, be)
-    tp = be.params[0]
-    cases = util.dispatch_cases(v, ("sym", f"{tp}.data"))
+    from . import common as _cm
+
+    be, v, _ref, kt_ = _cm.builder_values(ctx)
+    tp = "tree"
+    cases = util.dispatch_cases(v, kt_)
     for kind in ("func", "logicalfunc"):
         key = be.key(f"apply-all::{kind}")
         cv = cases.get(kind)
@@ -144,7 +152,7 @@ def check_apply_all(ctx: Ctx, rule: str):
         children = ("slice", ("sym", f"{tp}.children"), _av.C(1), _av.NONE)
         for c in gen:
             a = c[2]
-            ok = len(a) == 1 and not c[3] and a[0][0] == "spread" and a[0][1][0] == "comp" and _av._unwrap_seq(a[0][1][2]) == children and not a[0][1][4] and len(a[0][1][3]) == 1 and a[0][1][3][0] == ("call", be.name, (("bv", a[0][1][1]),), ())
+            ok = len(a) == 1 and not c[3] and a[0][0] == "spread" and a[0][1][0] == "comp" and _av._unwrap_seq(a[0][1][2]) == children and not a[0][1][4] and len(a[0][1][3]) == 1 and a[0][1][3][0] == ("call", _cm.BUILD, (("bv", a[0][1][1]),), ())
             if not ok:
                 bad = _av.show(c)[:160]
         ctx.check(bad is None, rule, key, "function applied to every child after the name", f"build_expression applies a `{kind}` as `{bad}` instead of to every converted child after the name: And(a, b, c) as written by the saver loses operands on reload", be.where())
@@ -250,7 +258,7 @@ def check_writer_sections(ctx: Ctx, rule: str, cls):
             ev = D[3][0]
             okg = ev[1] == ("attr", ("bv", D[1]), "components") and ev[2] == ("bv", D[1]) and not D[4] and all(same(g, D) for g in groupings)
             ctx.check(okg, rule, keys["grouping"], "grouped by component membership", f"{mname} does not group the atoms by their `components` tuple (it records {_av.show(ev)[:80]}{' under a condition' if D[4] else ''})", f.where())
-            ctx.check(_av._unwrap_seq(D[2]) == seq, rule, keys["sequence"], f"iterates {_av.show(seq)}", f"{mname} iterates {_av.show(D[2])[:80]}, not {_av.show(seq)}: some atoms are not saved", f.where())
+            ctx.check(_av.concat_parts(D[2]) == _av.concat_parts(seq), rule, keys["sequence"], f"iterates {_av.show(seq)}", f"{mname} iterates {_av.show(D[2])[:80]}, not {_av.show(seq)}: some atoms are not saved", f.where())
         # key and group of one block
         if src[0] == "mcall" and src[2] == "items":
             key_t, grp_t, table = ("bv", d1, 0), ("bv", d1, 1), src[1]
